@@ -285,6 +285,32 @@ func (g *genState) somePrefix(maxLen int) string {
 }
 
 func genC19(r *vu.RNG, c *vu.Case) bool {
+	if c.Idx%12 == 11 {
+		// a long queue: many disjoint regions enqueued in a scrambled order, persisted, restored, dequeued to the end
+		g := &genState{r: r}
+		l := r.Range(5, 6)
+		n := r.Range(17, 30) // fewer than the 2^l disjoint prefixes there are
+		seen := map[string]bool{}
+		c.In = append(c.In, "new")
+		for len(seen) < n {
+			p := r.Bits(l)
+			if seen[p] {
+				continue
+			}
+			seen[p] = true
+			var ks []string
+			for j := 0; j < r.Range(1, 2); j++ {
+				ks = append(ks, g.newKey(p))
+			}
+			c.In = append(c.In, "enq "+p+" "+list(ks))
+		}
+		c.In = append(c.In, "persist "+strconv.Itoa(r.Range(1, 5)), "restart")
+		for i := 0; i < n+1; i++ {
+			c.In = append(c.In, "deq")
+		}
+		c.Tag("long-queue")
+		return true
+	}
 	g := &genState{r: r, base: r.Bits(r.Intn(4))}
 	n := r.Range(4, 24)
 	if c.Tier == "thorough" {
